@@ -396,6 +396,7 @@ func runC05(o *Out, rng *RNG, tier string, replay string) {
 	r.tamper(settings[0])
 	r.wrongKey(settings)
 	r.namespace(settings[5])
+	r.settingsIsolationProbe()
 }
 
 // ---------------------------------------------------------------- (1) round trips
